@@ -343,15 +343,37 @@ def r11_3(ctx):
     ERR = prog.macro_value('CALLBACK_ERROR')
     ECB = prog.macro_value('ERROR_CALLBACK_ERROR')
     cbs = set(c['i'] for g, c in callback_calls(prog, fixture=ctx.fixture) if g is f)
-    # the switch on the call's value
+    # how the call's value is dispatched: a switch on it, or comparisons of it (or of
+    # the local that holds it) with the CALLBACK_* constants
     sw = f.parent(call)
     while sw is not None and sw['k'] == 'cast':
         sw = f.parent(sw)
-    ctx.require(sw is not None and sw['k'] == 'switch',
-                'the rule callback\'s return value is not dispatched by a switch')
+    holder = None
+    if sw is not None and sw['k'] == 'decl':
+        holder = sw['name']
+    elif sw is not None and sw['k'] == 'bin' and sw['op'] == '=':
+        l = f.kid(sw, 0)
+        holder = l['name'] if l is not None and l['k'] == 'ref' else None
+    if sw is not None and sw['k'] != 'switch':
+        sw = None
+        if holder is not None:
+            for n in f.all_nodes():
+                if n['k'] == 'switch':
+                    c0 = cu.strip_casts(f, f.kid(n, 0))
+                    if c0 is not None and c0['k'] == 'ref' and c0['name'] == holder:
+                        sw = n
+
+    def is_value(x):
+        x = cu.strip_casts(f, x)
+        return x is not None and (x is call or (holder is not None and x['k'] == 'ref' and x['name'] == holder))
+    compares = [n for n in f.all_nodes() if n['k'] == 'bin' and n['op'] in ('==', '!=') and
+                (is_value(f.kid(n, 0)) or is_value(f.kid(n, 1)))]
+    ctx.require(sw is not None or compares,
+                'the rule callback\'s return value is neither dispatched by a switch nor compared')
     nb = f.block_of(call)
     problems = {}
     reached = set()
+    top = ctx.fn('yr_scanner_scan_mem_blocks', 'libyara/scanner.c')
 
     def step(n, facts):
         d = dict(facts)
@@ -383,18 +405,82 @@ def r11_3(ctx):
             return None
         return facts
 
+    def retag(facts, tag):
+        return frozenset(x for x in facts if x[0] != 'ret') | {('ret', tag)}
+
     def edge(b, term, cond, idx, succ, facts):
-        if term is not None and term is sw:
+        if sw is not None and term is not None and term is sw:
             cs = paths.switch_case_of(f, term, succ)
-            d = dict(facts)
             if cs is None or cs['k'] == 'default':
-                return frozenset(x for x in facts if x[0] != 'ret') | {('ret', 'other')}
+                return retag(facts, 'other')
             v = cs.get('v')
-            tag = 'ABORT' if v == ABORT else 'ERROR' if v == ERR else 'other'
-            return frozenset(x for x in facts if x[0] != 'ret') | {('ret', tag)}
+            return retag(facts, 'ABORT' if v == ABORT else 'ERROR' if v == ERR else 'other')
+        pol = paths.branch_polarity(f, term, idx)
+        if pol is None or cond is None:
+            return facts
+        c, pol = paths.normalise_cond(f, cond, pol)
+        if c is not None and c['k'] == 'bin' and c['op'] in ('==', '!=') and \
+                (is_value(f.kid(c, 0)) or is_value(f.kid(c, 1))):
+            other = f.kid(c, 1) if is_value(f.kid(c, 0)) else f.kid(c, 0)
+            v = cu.const_of(cu.strip_casts(f, other))
+            tag = 'ABORT' if v == ABORT else 'ERROR' if v == ERR else None
+            if tag is None:
+                return facts
+            eq = (c['op'] == '==') == pol
+            cur = dict(facts).get('ret')
+            if eq:
+                if cur in ('ABORT', 'ERROR', 'other') and cur != tag and cur is not None:
+                    return None if cur in ('ABORT', 'ERROR') else facts
+                return retag(facts, tag)
+            if cur == tag:
+                return None
         return facts
     paths.explore(f, {('ret', None)}, step, edge, start_block=nb[0], start_index=nb[1] + 1,
                   max_states=256)
+    if f is not top:
+        # the reporting loop lives in a helper: the funnel must hand the helper's
+        # code on unchanged, and start no other message after it
+        hcalls = [c for c in top.calls() if c.get('callee') == f.name]
+        ctx.require(len(hcalls) == 1, 'the reporting helper is called %d times from the scan funnel' % len(hcalls))
+        hc = hcalls[0]
+        hp = top.parent(hc)
+        while hp is not None and hp['k'] == 'cast':
+            hp = top.parent(hp)
+        hvar = None
+        if hp is not None and hp['k'] == 'decl':
+            hvar = hp['name']
+        elif hp is not None and hp['k'] == 'bin' and hp['op'] == '=':
+            l = top.kid(hp, 0)
+            hvar = l['name'] if l is not None and l['k'] == 'ref' else None
+        direct = hp is not None and hp['k'] == 'ret'
+        tcbs = set(c['i'] for g, c in callback_calls(prog, fixture=ctx.fixture) if g is top)
+        tb = top.block_of(hc)
+        lost = []
+        more = []
+
+        def tstep(n, facts):
+            if n['k'] == 'call' and n['i'] in tcbs:
+                more.append(n)
+                return None
+            if n['k'] == 'bin' and n['op'].endswith('=') and n['op'] not in ('==', '!=', '<=', '>=') \
+                    and n is not hp:
+                l = top.kid(n, 0)
+                if l is not None and l['k'] == 'ref' and l['name'] == hvar:
+                    lost.append(n)
+            if n['k'] == 'ret':
+                e = cu.strip_casts(top, top.kid(n, 0)) if n.get('c') else None
+                if not direct and not (e is not None and e['k'] == 'ref' and e['name'] == hvar):
+                    lost.append(n)
+                return None
+            return facts
+        if not direct:
+            paths.explore(top, set(), tstep, None, start_block=tb[0], start_index=tb[1] + 1, max_states=64)
+        ctx.require(not more, 'a callback call follows the reporting helper in the scan funnel: the '
+                              'abort/error discipline cannot be followed across the helper boundary')
+        ctx.ob('R11.3', 'rule-message:helper-code-returned', not lost, top.loc(lost[0] if lost else hc),
+               'the scan funnel returns the reporting helper\'s code unchanged' if not lost else
+               'the code produced by %s after CALLBACK_ABORT / CALLBACK_ERROR is overwritten or not '
+               'returned by the scan funnel' % f.name)
     for tag in ('ABORT', 'ERROR'):
         ok_reach = tag in reached
         ks = [k for k in problems if k.startswith(tag)]
@@ -425,26 +511,52 @@ def r11_3(ctx):
                f.loc(c), 'SCAN_FINISHED is emitted once, after the loop and before the common exit'
                if not in_loop and not after_exit else
                'SCAN_FINISHED is emitted inside a loop or on the common exit path')
-    # yr_modules_load
+    # yr_modules_load (and the static helpers it is built from)
     g = ctx.fn('yr_modules_load', 'libyara/modules.c')
-    gcalls = [c for h, c in callback_calls(prog, fixture=ctx.fixture) if h is g]
-    for c in gcalls:
-        ms = message_values(prog, g, g.call_args(c)[1]) or set(['?'])
+    gfam = cu.family(prog, g)
+    gcalls = [(h, c) for h, c in callback_calls(prog, fixture=ctx.fixture) if h in gfam]
+    ctx.require(len(gcalls) >= 2 or ctx.fixture, 'module import messages not found in yr_modules_load')
+    for h, c in gcalls:
+        ms = message_values(prog, h, h.call_args(c)[1]) or set(['?'])
         m = sorted(ms)[0]
-        in_loop = any(a['k'] in ('for', 'while', 'do') for a in g.ancestors(c))
-        ctx.ob('R11.3', 'yr_modules_load:%s:not-in-loop' % m, not in_loop, g.loc(c),
+        in_loop = any(a['k'] in ('for', 'while', 'do') for a in h.ancestors(c))
+        hsites = [x for x in g.calls() if x.get('callee') == h.name] if h is not g else []
+        if h is not g:
+            in_loop = in_loop or len(hsites) != 1 or \
+                any(a['k'] in ('for', 'while', 'do') for x in hsites for a in g.ancestors(x))
+        ctx.ob('R11.3', 'yr_modules_load:%s:not-in-loop' % m, not in_loop, h.loc(c),
                '%s is emitted at most once per yr_modules_load call' % m)
         # CALLBACK_ERROR -> return ERROR_CALLBACK_ERROR
-        nbk = g.block_of(c)
+        nbk = h.block_of(c)
         bad = []
         seen = [False]
-        ct = paths.CondTracker(g, extra=['result'])
+        hold = paths.value_holder(h, c)
+        hvar = hold[1] if hold[0] == 'var' else None
 
-        def step2(n, facts, c=c):
+        def is_val(x, h=h, c=c, hvar=hvar):
+            x = cu.strip_casts(h, x)
+            while x is not None and x['k'] == 'paren':
+                x = cu.strip_casts(h, h.kid(x, 0))
+            return x is not None and (x is c or (hvar is not None and x['k'] == 'ref' and x['name'] == hvar))
+
+        def value_of(e, facts, h=h):
+            """constant a returned expression has on this path (follows ?: arms)"""
+            e = cu.strip_casts(h, e)
+            while e is not None and e['k'] == 'paren':
+                e = cu.strip_casts(h, h.kid(e, 0))
+            if e is None:
+                return None
+            if e['k'] == 'cond':
+                for x in facts:
+                    if isinstance(x, tuple) and x[0] == 'arm' and x[1] == e['i']:
+                        return value_of(h.kid(e, 1 if x[2] else 2), facts)
+                return None
+            return cu.const_of(e)
+
+        def step2(n, facts, c=c, h=h):
             if n['k'] == 'ret' and 'cberr' in facts:
                 seen[0] = True
-                e = g.kid(n, 0)
-                if cu.const_of(cu.strip_casts(g, e)) != ECB:
+                if value_of(h.kid(n, 0), facts) != ECB:
                     bad.append(n)
                 return None
             if n['k'] == 'ret':
@@ -454,51 +566,76 @@ def r11_3(ctx):
                 return None
             return facts
 
-        def edge2(b, term, cond, idx, succ, facts):
-            pol = paths.branch_polarity(g, term, idx)
+        def edge2(b, term, cond, idx, succ, facts, h=h):
+            pol = paths.branch_polarity(h, term, idx)
             if pol is None or cond is None:
                 return facts
-            imp = ct.implied(cond, pol)
-            if imp is not None and imp[1] == 'result' and imp[2] == ERR:
-                if imp[0] == 'eq':
-                    return facts | {'cberr'}
-                if 'cberr' in facts:
-                    return None
+            if term is not None and term['k'] == 'cond':
+                facts = frozenset(facts) | {('arm', term['i'], pol)}
+            cc, pol2 = paths.normalise_cond(h, cond, pol)
+            while cc is not None and cc['k'] == 'paren':
+                cc = cu.strip_casts(h, h.kid(cc, 0))
+            if cc is not None and cc['k'] == 'bin' and cc['op'] in ('==', '!='):
+                for x, y in ((h.kid(cc, 0), h.kid(cc, 1)), (h.kid(cc, 1), h.kid(cc, 0))):
+                    if is_val(x) and cu.const_of(cu.strip_casts(h, y)) == ERR:
+                        if (cc['op'] == '==') == pol2:
+                            return frozenset(facts) | {'cberr'}
+                        if 'cberr' in facts:
+                            return None
             return facts
-        paths.explore(g, set(), step2, edge2, start_block=nbk[0], start_index=nbk[1] + 1, max_states=64)
+        paths.explore(h, set(), step2, edge2, start_block=nbk[0], start_index=nbk[1] + 1, max_states=128)
         ok = seen[0] and not bad
-        ctx.ob('R11.3', 'yr_modules_load:%s:CALLBACK_ERROR-fails-the-load' % m, ok, g.loc(c),
+        where = h.loc(c)
+        if ok and h is not g:
+            # the helper's ERROR_CALLBACK_ERROR must leave yr_modules_load unchanged
+            for x in hsites:
+                good, at = paths.error_propagated(g, x)
+                if not good:
+                    ok = False
+                    where = g.loc(at if at is not None else x)
+        ctx.ob('R11.3', 'yr_modules_load:%s:CALLBACK_ERROR-fails-the-load' % m, ok, where,
                'CALLBACK_ERROR in response to %s makes yr_modules_load return '
                'ERROR_CALLBACK_ERROR' % m if ok else
                'CALLBACK_ERROR in response to %s is not turned into ERROR_CALLBACK_ERROR' % m)
-    # already loaded -> no message
+    # already loaded -> no message.  The looked-up object is whatever variable
+    # receives the result of the table lookup.
     bad = []
-    found_lookup = [False]
+    lookups = [x for x in g.calls() if (x.get('callee') or '').startswith('yr_hash_table_lookup')]
+    found_lookup = [bool(lookups)]
+    lvar = None
+    if lookups:
+        hold = paths.value_holder(g, lookups[0])
+        lvar = hold[1] if hold[0] == 'var' else None
+    ctx.require(lvar is not None or ctx.fixture, 'the module lookup result is not kept in a variable')
+    msg_fns = set(h.name for h, c in gcalls if h is not g)
 
     def step3(n, facts):
-        if n['k'] == 'call' and n.get('callee', '').startswith('yr_hash_table_lookup'):
-            found_lookup[0] = True
-        if n['k'] == 'call' and n.get('fntype') == CB_TYPE and 'loaded' in facts:
+        if 'loaded' in facts and n['k'] == 'call' and (n.get('fntype') == CB_TYPE or
+                                                       n.get('callee') in msg_fns):
             bad.append(n)
             return None
         if n['k'] == 'ret':
             return None
         return facts
-    ct3 = paths.CondTracker(g, extra=['module_structure'])
+    ct3 = paths.CondTracker(g, extra=[lvar] if lvar else [])
 
     def edge3(b, term, cond, idx, succ, facts):
         pol = paths.branch_polarity(g, term, idx)
         if pol is None or cond is None:
             return facts
         imp = ct3.implied(cond, pol)
-        if imp is not None and imp[1] == 'module_structure' and imp[2] == 0 and 'decided' not in facts:
+        if imp is not None and imp[1] == lvar and imp[2] == 0 and 'decided' not in facts:
             return facts | {'decided'} | ({'loaded'} if imp[0] == 'ne' else set())
         return facts
     paths.explore(g, set(), step3, edge3, max_states=64)
-    ctx.ob('R11.3', 'yr_modules_load:already-loaded-is-silent', found_lookup[0] and not bad,
+    decided = any(True for n in g.all_nodes() if n['k'] in ('if', 'cond') and lvar and
+                  any(x['k'] == 'ref' and x['name'] == lvar for x in g.walk(g.kid(n, 0))))
+    ctx.ob('R11.3', 'yr_modules_load:already-loaded-is-silent', found_lookup[0] and decided and not bad,
            '%s:%s' % (g.file, g.line),
-           'a module already present in the scanner\'s table produces no message' if not bad else
-           'a module already loaded still produces an import message')
+           'a module already present in the scanner\'s table produces no message'
+           if found_lookup[0] and decided and not bad else
+           'a module already loaded still produces an import message' if bad else
+           'the result of the module lookup is never tested')
     # OP_IMPORT: non-success stops the VM
     vmf, vm = vm_groups(ctx)
     v = prog.macro_value('OP_IMPORT')
